@@ -150,8 +150,14 @@ def dropTrailingZeros (bs : Bytes) : Bytes := (bs.reverse.dropWhile (· == 0)).r
 
 def trailerName : Bytes := [84, 82, 65, 73, 76, 69, 82, 33, 33, 33]
 
-/-- `Reader::new`: `none` = `Err`; otherwise (is trailer, file size, rest of the archive) -/
-def readerNew (entries : List FileEntry) (a : Bytes) : Option (Bool × Nat × Bytes) :=
+/-- the header path a cpio entry name stands for (`Reader::file_index`): `"." + path`, or the plain path -/
+def namePath : Bytes → Bytes
+  | 46 :: 47 :: r => 47 :: r
+  | n => n
+
+/-- `Reader::new`: `none` = `Err`; otherwise (is trailer, `Reader::file_index` — the header file the
+entry designates: by name, or the index a stripped entry carries —, file size, rest of the archive) -/
+def readerNew (entries : List FileEntry) (a : Bytes) : Option (Bool × Option Nat × Nat × Bytes) :=
   if a.length < 6 then none else
   let magic := a.take 6
   let a := a.drop 6
@@ -168,7 +174,8 @@ def readerNew (entries : List FileEntry) (a : Bytes) : Option (Bool × Nat × By
         if !Utf8.isValid name then none else
         let p := padLen (110 + nameLen)
         if a.length < p then none else
-        some (name == trailerName, fileSize, a.drop p)
+        let i := (entries.map (·.path)).idxOf (namePath name)
+        some (name == trailerName, if i < entries.length then some i else none, fileSize, a.drop p)
     | _ => none
   else if magic = [48, 55, 48, 55, 48, 88] then
     match readHexU32 a with
@@ -176,9 +183,9 @@ def readerNew (entries : List FileEntry) (a : Bytes) : Option (Bool × Nat × By
     | some (idx, a) =>
       if a.length < 2 then none else
       let a := a.drop 2
-      if idx = 4294967295 then some (true, 0, a)
+      if idx = 4294967295 then some (true, none, 0, a)
       else match entries[idx]? with
-        | some e => some (false, e.size, a)
+        | some e => some (false, some idx, e.size, a)
         | none => none
   else none
 
@@ -186,20 +193,26 @@ def kindOf (mode : Nat) : Kind :=
   match FileMode.fromU16 mode with
   | .dir _ => .dir | .regular _ => .regular | .symlink _ => .symlink | .invalid _ => .other
 
-/-- `FileIterator`: the `Ok` items in order, and whether the iteration then ends (`true`) or yields an `Err` -/
-def iterate (all : List FileEntry) : List FileEntry → Bytes → List Item × Bool
-  | [], _ => ([], true)
-  | e :: es, a =>
+/-- `FileIterator` (`count = all.length - fuel`): the `Ok` items in order, and whether the iteration then
+ends (`true`) or yields an `Err`.  Each item carries the metadata of the header file its archive entry
+designates (since `fix: 3cfa908`; by position before); an entry that designates none is an `Err`. -/
+def iterate (all : List FileEntry) : Nat → Bytes → List Item × Bool
+  | 0, _ => ([], true)
+  | fuel + 1, a =>
     match readerNew all a with
     | none => ([], false)
-    | some (true, _, _) => ([], true)
-    | some (false, size, a) =>
+    | some (true, _, _, _) => ([], true)
+    | some (false, none, _, _) => ([], false)
+    | some (false, some i, size, a) =>
+      match all[i]? with
+      | none => ([], false)
+      | some e =>
       -- `read_to_end` stops early at the end of the archive; `finish` then fails (data or padding missing)
       if a.length < size then ([], false) else
       let content := a.take size
       let a := a.drop size
       if a.length < padLen size then ([], false) else
-      let (items, ok) := iterate all es (a.drop (padLen size))
+      let (items, ok) := iterate all fuel (a.drop (padLen size))
       (⟨e.path, kindOf e.mode, FileMode.permissions (FileMode.fromU16 e.mode), content, e.linkto⟩ :: items, ok)
 
 /-- everything `extract` reads. `archive?` replaces the payload when it is compressed (the driver has
@@ -219,7 +232,7 @@ def extractInput (p : Package) (archive? : Option Bytes) : Option Input :=
       match archive with
       | none => none
       | some a =>
-        let (items, ok) := iterate es es a
+        let (items, ok) := iterate es es.length a
         some ⟨dirnames, items, ok⟩
 
 end RpmVerif.PkgFiles
